@@ -87,5 +87,12 @@ CHECKS["C18"] = dict(
     note="goroutines spawned by the breaker are queued and run deterministically (overlay); windows read as 9..10s / 50s..since-trip; quantile rank +-1",
     parts=[dict(bin="vsched", part="c18", shards=16, budget=dict(quick=100, thorough=1500))])
 
+CHECKS["C09"] = dict(
+    level="model_checking", engine="sched", design_ref="DESIGN.md §5 C09",
+    technique="preemption-bounded stateless DFS over thread schedules of the real middlewares with the Go race detector as per-schedule oracle (scheduler hand-off invisible to the detector)",
+    text="Ten harnesses (balancer, rebalancer, breaker, RTMetrics x2, token limiter, TTL map, connection limiter, tracer, full stack), each 2-4 threads of requests plus administration/inspection: every schedule with <= 2 (quick) / <= 3 (thorough, Unlock also a point) preemptions is executed in a -race build; any race report, deadlock or lost update is a violation.",
+    note="A3; GOMAXPROCS=1 cooperative hand-off through norace code, so the detector sees only the program's real synchronisation",
+    parts=[dict(bin="vsched-race", part="c09", shards=16, budget=dict(quick=150, thorough=1500))])
+
 NOT_APPLICABLE = [dict(property_id=p, reason="check not built yet in this revision (work in progress; see DESIGN.md for the plan)")
                   for p in ALL if p not in CHECKS]
